@@ -56,7 +56,7 @@ def gen_history(rng, feats):
     if rng.random() < 0.5:
         new_table()
     for round_ in range(rng.choice([3, 5, 8])):
-        mode = rng.choice(["auto", "auto", "session", "ddl", "reopen", "reopen", "flush", "vacuum"])
+        mode = rng.choice(["auto", "auto", "session", "ddl", "reopen", "reopen", "flush", "vacuum", "flush-in-session", "readers-then-reopen"])
         t = rng.choice(tables)
         if mode == "auto":
             for _ in range(rng.choice([1, 2, 3])):
@@ -73,6 +73,40 @@ def gen_history(rng, feats):
                 h.commit(k)
             else:
                 h.rollback(k, drop=rng.random() < 0.3)
+        elif mode == "flush-in-session":
+            # the data pages of an open transaction are checkpointed, then it rolls back (or commits) and the handle is
+            # closed without any further write: only page zero knows how the transaction ended
+            k = 700 + round_
+            commit = rng.random() < 0.4
+            h.begin(k)
+            for _ in range(rng.choice([1, 2])):
+                sql, coq, kind = stmt(rng.choice(tables), allow_update=False)
+                h.q(k, sql, coq, sorted_=True)
+            h.simple("F", "AFlush")
+            if commit:
+                h.commit(k)
+            else:
+                h.rollback(k, drop=rng.random() < 0.3)
+            before = observe()
+            h.simple("O", "AReopen", rng.choice(CFGS))
+            after = observe()
+            checks.append((before, after))
+            sql, coq, kind = stmt(rng.choice(tables))
+            h.x(sql, coq, sorted_=True)
+        elif mode == "readers-then-reopen":
+            # transactions that only read consume ids; after the reopen new transactions must not reuse them
+            for _ in range(rng.choice([2, 5])):
+                q = select_all(rng.choice(tables))
+                h.x(q.sql(), q.coq(), sorted_=True)
+            h.simple("O", "AReopen", rng.choice(CFGS))
+            k = 800 + round_
+            h.begin(k)
+            sql, coq, kind = stmt(rng.choice(tables), allow_update=False)
+            h.q(k, sql, coq, sorted_=True)
+            h.rollback(k)
+            for _ in range(2):
+                sql, coq, kind = stmt(rng.choice(tables))
+                h.x(sql, coq, sorted_=True)
         elif mode == "ddl":
             if len(tables) > 1 and rng.random() < 0.5:
                 d = tables.pop(rng.randrange(len(tables)))
